@@ -29,6 +29,10 @@ enum PAct {
     FreeOldest,
     /// free the newest block this thread still holds
     FreeNewest,
+    /// hand the oldest block this thread holds to the shared mailbox (it stays allocated)
+    Give,
+    /// free a block that another thread put into the mailbox (cross-thread free; no-op if the mailbox is empty)
+    FreeGiven,
 }
 
 /// A pool behind a uniform face: blocks are identified by a stable integer (address or offset).
@@ -88,6 +92,9 @@ impl PoolFace for SecureFace {
 struct LfFace {
     pool: LockFreeMemoryPool,
     size: usize,
+    /// number of blocks of `size` a fresh pool of this configuration hands out before it reports exhaustion,
+    /// measured once on a fresh pool without threads (None: not measured for this scenario)
+    population: Option<usize>,
 }
 impl PoolFace for LfFace {
     fn alloc(&self) -> Result<usize, String> {
@@ -98,6 +105,9 @@ impl PoolFace for LfFace {
     }
     fn quiescent_check(&self, _live: usize) -> Result<(), Fail> {
         Ok(())
+    }
+    fn population(&self) -> Option<usize> {
+        self.population
     }
 }
 
@@ -115,6 +125,7 @@ fn usize_to_off(u: usize) -> MemOffset {
 struct FlFace {
     pool: LockFreePool,
     size: usize,
+    population: Option<usize>,
 }
 impl PoolFace for FlFace {
     fn alloc(&self) -> Result<usize, String> {
@@ -125,6 +136,9 @@ impl PoolFace for FlFace {
     }
     fn quiescent_check(&self, _live: usize) -> Result<(), Fail> {
         Ok(())
+    }
+    fn population(&self) -> Option<usize> {
+        self.population
     }
 }
 
@@ -224,10 +238,12 @@ impl SchedSpec for PoolSpec {
             let _ = face.free(b);
         }
         let owners: Arc<Mutex<HashMap<usize, usize>>> = Arc::new(Mutex::new(HashMap::new()));
+        let mailbox: Arc<Mutex<Vec<usize>>> = Arc::new(Mutex::new(Vec::new()));
         let mut threads: Vec<Box<dyn FnOnce() + Send>> = Vec::new();
         for (tid, prog) in self.threads.iter().cloned().enumerate() {
             let face = face.clone();
             let owners = owners.clone();
+            let mailbox = mailbox.clone();
             threads.push(Box::new(move || {
                 let mut mine: Vec<usize> = Vec::new();
                 for (i, act) in prog.iter().enumerate() {
@@ -244,6 +260,22 @@ impl SchedSpec for PoolSpec {
                                 }
                                 o.insert(b, tid);
                                 mine.push(b);
+                            }
+                        }
+                        PAct::Give => {
+                            if !mine.is_empty() {
+                                let b = mine.remove(0);
+                                owners.lock().unwrap().insert(b, usize::MAX);
+                                mailbox.lock().unwrap().push(b);
+                            }
+                        }
+                        PAct::FreeGiven => {
+                            let b = mailbox.lock().unwrap().pop();
+                            if let Some(b) = b {
+                                owners.lock().unwrap().remove(&b);
+                                if let Err(e) = face.free(b) {
+                                    sched::fail_now(Fail::new("free_failed", format!("thread {tid}: freeing a block handed over by another thread failed: {e}")).with_class("free_err"));
+                                }
                             }
                         }
                         PAct::FreeOldest | PAct::FreeNewest => {
@@ -348,7 +380,36 @@ fn lf_face() -> Arc<dyn PoolFace> {
         enable_simd_optimization: false,
         zero_on_free: false,
     };
-    Arc::new(LfFace { pool: LockFreeMemoryPool::new(cfg).expect("lockfree pool"), size: 64 })
+    Arc::new(LfFace { pool: LockFreeMemoryPool::new(cfg).expect("lockfree pool"), size: 64, population: None })
+}
+/// small backing region: the whole population can be drained at quiescence, so a block that a race dropped from the
+/// free structure is noticed ("no block is lost"); the reference population is measured on a fresh pool without threads
+fn lf_small_cfg() -> LockFreePoolConfig {
+    LockFreePoolConfig {
+        memory_size: 2048,
+        enable_stats: true,
+        max_cas_retries: 1000,
+        backoff_strategy: BackoffStrategy::None,
+        enable_cache_alignment: false,
+        cache_config: None,
+        enable_numa_awareness: false,
+        enable_huge_pages: false,
+        huge_page_threshold: 2 << 20,
+        enable_simd_optimization: false,
+        zero_on_free: false,
+    }
+}
+fn lf_face_small() -> Arc<dyn PoolFace> {
+    static POP: std::sync::OnceLock<usize> = std::sync::OnceLock::new();
+    let n = *POP.get_or_init(|| {
+        let p = LockFreeMemoryPool::new(lf_small_cfg()).expect("lockfree pool");
+        let mut n = 0;
+        while n < 10_000 && p.allocate(64).is_ok() {
+            n += 1;
+        }
+        n
+    });
+    Arc::new(LfFace { pool: LockFreeMemoryPool::new(lf_small_cfg()).expect("lockfree pool"), size: 64, population: Some(n) })
 }
 fn fl_cfg() -> FiveLevelPoolConfig {
     let mut c = FiveLevelPoolConfig::default();
@@ -359,7 +420,19 @@ fn fl_cfg() -> FiveLevelPoolConfig {
     c
 }
 fn fl_face() -> Arc<dyn PoolFace> {
-    Arc::new(FlFace { pool: LockFreePool::new(fl_cfg()).expect("five-level lock-free pool"), size: 64 })
+    Arc::new(FlFace { pool: LockFreePool::new(fl_cfg()).expect("five-level lock-free pool"), size: 64, population: None })
+}
+fn secure_face_with(local_cache: usize) -> Arc<dyn PoolFace> {
+    let mut cfg = SecurePoolConfig::new(64, 16, 8);
+    cfg.local_cache_size = local_cache;
+    cfg.use_guard_pages = false;
+    cfg.enable_cache_alignment = false;
+    cfg.enable_hot_cold_separation = false;
+    cfg.enable_huge_pages = false;
+    Arc::new(SecureFace { pool: SecureMemoryPool::new(cfg).expect("secure pool"), held: Mutex::new(HashMap::new()) })
+}
+fn secure_face_nocache() -> Arc<dyn PoolFace> {
+    secure_face_with(0)
 }
 fn mx_face() -> Arc<dyn PoolFace> {
     Arc::new(MxFace { pool: MutexBasedPool::new(fl_cfg()).expect("five-level mutex pool"), size: 64 })
@@ -400,6 +473,35 @@ fn main() {
             make: fc_face_lazy,
             prefill: 0,
             threads: vec![vec![Alloc, FreeOldest], vec![Alloc, FreeOldest]],
+            bound_quick: 2,
+            bound_thorough: 4,
+            uaf_site: None,
+        }));
+        // every free goes to the shared stack (no thread-local cache): pushes race with the serialised pops
+        reg.add(Sched(PoolSpec {
+            name: "SecureMemoryPool[local_cache=0] H1b: 3 threads through the shared stack",
+            make: secure_face_nocache,
+            prefill: 3,
+            threads: vec![vec![Alloc, FreeOldest], vec![Alloc, Alloc, FreeOldest], vec![Alloc, FreeOldest]],
+            bound_quick: 2,
+            bound_thorough: 3,
+            uaf_site: Some("sp.pop.deref"),
+        }));
+        // cross-thread free: a block allocated by T0 is freed by T1 (it lands in T1's local cache / the shared stack)
+        reg.add(Sched(PoolSpec {
+            name: "SecureMemoryPool[local_cache=1] H1c: cross-thread free through a mailbox",
+            make: secure_face,
+            prefill: 2,
+            threads: vec![vec![Alloc, Alloc, Give, FreeOldest], vec![Alloc, FreeGiven, FreeOldest, Alloc]],
+            bound_quick: 2,
+            bound_thorough: 4,
+            uaf_site: Some("sp.pop.deref"),
+        }));
+        reg.add(Sched(PoolSpec {
+            name: "LockFreeMemoryPool[2 KiB] H2c: whole population drained at quiescence (no block lost), cross-thread free",
+            make: lf_face_small,
+            prefill: 3,
+            threads: vec![vec![Alloc, Alloc, Give, FreeOldest], vec![Alloc, FreeGiven, FreeOldest]],
             bound_quick: 2,
             bound_thorough: 4,
             uaf_site: None,
